@@ -6,6 +6,9 @@ from .expr import zint, ite, zmax, zmin, is_true, is_false, py_floordiv, py_mod
 from .calls import dtype_kind
 
 
+_RECFUNS = {}
+
+
 class LibMixin:
     # ------------------------------------------------------------ helpers
     def kw(self, node, name, pos=None):
@@ -370,6 +373,7 @@ class LibMixin:
     def psum_fn(self, kind):
         """psum(a, k) = a[0] + ... + a[k-1] as a recursive function."""
         key = "psum_" + kind
+        self.recfuns = _RECFUNS
         if key not in self.recfuns:
             srt = SORTS[kind] if kind != "bool" else INT
             f = z3.RecFunction(key, arr_sort(kind), INT, srt)
